@@ -5,7 +5,7 @@ set -u
 patch=$1; shift
 d=$(mktemp -d /tmp/mut-XXXXXX); rmdir $d
 git -C /repo worktree add -q --detach $d HEAD || exit 2
-trap 'git -C /repo worktree remove --force $d >/dev/null 2>&1; rm -rf $d' EXIT
+trap 'git -C /repo worktree remove --force $d >/dev/null 2>&1; rm -rf $d /tmp/verif-scratch-replay' EXIT
 case "$patch" in
   *.sh) (cd $d && bash "$patch") || { echo "mutation script failed"; exit 2; } ;;
   *) git -C $d apply "$patch" || { echo "patch does not apply"; exit 2; } ;;
@@ -16,7 +16,5 @@ for p in "$@"; do
   VERIF_REPO=$d /verif/check $p quick > $d.out 2>&1; rc=$?
   echo "== $p exit=$rc: $(grep -m1 -A1 VIOLATION $d.out | tr '\n' ' ' | cut -c1-300)"
   [ $rc = 2 ] && tail -5 $d.out
-  # found-* replay files saved by a mutant run must not stay in /verif
-  grep -o 'replay=[^ ]*' $d.out | cut -d= -f2 | while read f; do case "$f" in */found-*) rm -f "$f";; esac; done
   rm -f $d.out
 done
